@@ -44,10 +44,11 @@ def setup_worker():
 
 def plan(tier):
     if tier == "quick":
-        return [("base", {"lines": 0}, 12000, 250), ("lines", {"lines": 1}, 4000, 250), ("df", {"df": 1}, 1200, 100)]
+        return [("base", {"lines": 0}, 12000, 250), ("lines", {"lines": 1}, 4000, 250), ("df", {"df": 1}, 1200, 100),
+                ("iofault", {"lines": 0, "iofault": 1}, 2500, 250)]
     # thorough adds a 'deep' configuration beyond the bounds of the property text: up to 3 operations per client
     return [("base", {"lines": 0}, 400000, 1000), ("lines", {"lines": 1}, 150000, 1000), ("df", {"df": 1}, 40000, 250),
-            ("deep", {"lines": 1, "deep": 1}, 100000, 500)]
+            ("deep", {"lines": 1, "deep": 1}, 100000, 500), ("iofault", {"lines": 0, "iofault": 1}, 60000, 500)]
 
 
 class _Time:
@@ -154,6 +155,22 @@ def scenario(ch, cfg):
     cache.executor = SimExecutor(w, "w")
     if cfg.get("lines"):
         w.enable_line_preemption([fc.__file__], 1 + ch.draw(3, "budget"), gap=60)
+    # fault-injecting configuration (kept apart from the fault-free ones): one transient read error.  The
+    # relaxation is narrow: a get may then raise OSError and is left out of the history; a load entry whose
+    # future failed may stay behind; everything else (updates, other gets, disk/cache agreement, accounting of
+    # the healthy entries) is judged exactly as without the fault.
+    iofault = {"fired": False, "at": ch.draw(2, "ioat"), "seen": 0} if cfg.get("iofault") else None
+    if iofault is not None:
+        import errno as _errno
+
+        def hook(kind, path):
+            if kind == "open" and iofault.get("armed") and not iofault["fired"]:
+                if iofault["seen"] == iofault["at"]:
+                    iofault["fired"] = True
+                    w.stats["fs_fault_read_open_EIO"] += 1
+                    raise OSError(_errno.EIO, "injected I/O error")
+                iofault["seen"] += 1
+        fs.fault_hook = hook
     history = []
     stats = w.stats
 
@@ -218,6 +235,8 @@ def scenario(ch, cfg):
             history.append(op)
             w.yield_point("return")
 
+    if iofault is not None:
+        iofault["armed"] = True
     actors = [w.spawn(f"c{i}", lambda ops=ops: client(ops)) for i, ops in enumerate(plans)]
     n_entries0 = len(cache.file_futures)
     reason = w.run()
@@ -246,12 +265,15 @@ def scenario(ch, cfg):
             r = op.get("result")
             if r and r[0] == "exc":
                 expected = op["kind"] == "get" and r[1] == "FileNotFoundError"
+                if op["kind"] == "get" and r[1] == "OSError" and iofault is not None and iofault["fired"] and "injected" in op.get("excmsg", ""):
+                    expected = True      # the injected read error surfaced in a get: allowed, and only there
+                    op["faulted"] = True
                 if not expected:
                     violations.append({"sig": f"C18:exc:{r[1]}:{overlap_kinds(op)}",
                                        "msg": f"{op['kind']}({op['file']}) raised {r[1]}: {op.get('excmsg', '')}"})
         finals = {}
         for f in files:
-            fops = [op for op in allops if op["file"] == f]
+            fops = [op for op in allops if op["file"] == f and not op.get("faulted")]
             bad_exc = any(op["result"][0] == "exc" and not (op["kind"] == "get" and op["result"][1] == "FileNotFoundError")
                           for op in fops)
             if bad_exc:
@@ -268,6 +290,8 @@ def scenario(ch, cfg):
         total = 0
         for name, info in list(cache.file_futures.items()):
             if info[0]:
+                if iofault is not None and iofault["fired"] and info[0] is not True and info[-1].done() and info[-1].exception() is not None:
+                    continue        # the entry of the load that hit the injected error (shipped behaviour: it stays behind)
                 violations.append({"sig": "C18:final:entry-still-busy", "msg": f"{name} {info[:2]}"})
                 continue
             total += info[1]
